@@ -1,5 +1,7 @@
 import Driver.Util
 import Driver.BPE
+import Driver.Tree
+import Driver.Histogram
 import Driver.OT
 import Driver.Counts
 import Driver.Vocab
@@ -16,6 +18,8 @@ namespace Driver
 
 def handlers : List (String → Json → Option (R Json)) := [
   Driver.BPE.handle,
+  Driver.Tree.handle,
+  Driver.Histogram.handle,
   Driver.OT.handle,
   Driver.Counts.handle,
   Driver.Vocab.handle,
